@@ -35,7 +35,10 @@ func (c10) Gen(r *rand.Rand, tier string, run int) *core.Case {
 	c.Params["handlers"] = 1 + r.IntN(4)
 	c.Params["small"] = 1 + r.IntN(3)
 	c.Params["hseed"] = r.IntN(1 << 20)
-	sizes := []int{0, 0, 1, 3, 27, 28, 29, 100, 255, 600}
+	sizes := []int{0, 0, 1, 3, 27, 28, 29, 100, 255, 600, 600, 5000, 20000, 70000}
+	if c.Net.ReadMode == "byte" || c.Net.ReadMode == "tiny" || c.Net.Capacity == 16 {
+		sizes = sizes[:11]
+	}
 	for s := 0; s < senders; s++ {
 		n := 1 + r.IntN(5)
 		for i := 0; i < n; i++ {
